@@ -582,6 +582,17 @@ fn expr_alts(e: &Expr, vars: &[String], fns: &[String], wits: &[String]) -> Vec<
 }
 
 /// All single-edit near misses of `p` (operator@site, mutated program).
+/// `near_misses`, thinned for the wide / deep bases in the quick tier (every 16th mutant in enumeration order;
+/// the thorough tier takes all of them).
+pub fn near_misses_for(name: &str, p: &Program, quick: bool) -> Vec<(String, Program)> {
+    let all = near_misses(p);
+    if quick && crate::families::is_large(name) {
+        all.into_iter().enumerate().filter(|(i, _)| i % 16 == 0).map(|(_, m)| m).collect()
+    } else {
+        all
+    }
+}
+
 pub fn near_misses(p: &Program) -> Vec<(String, Program)> {
     let mut out = vec![];
     let (vars, fns, wits) = names_in(p);
